@@ -230,7 +230,7 @@ Definition wbits (w : N) : nat := match w with 2%N => 128 | _ => 64 end.
 Definition kerr_obs (e : kerr) : list N :=
   match e with
   | KMismatch _ _ => [2]
-  | KBadBase b => [1; b]
+  | KBadBase _ => [1]   (* the payload of a k-mer text error is not specified *)
   end%N.
 
 Definition lo64 (x : N) : N := (x mod 2 ^ 64)%N.
